@@ -3,6 +3,7 @@ package world
 import (
 	gocontext "context"
 	"errors"
+	"fmt"
 	"io"
 	"net"
 	"net/http"
@@ -81,11 +82,22 @@ const (
 	PvNotExist
 	PvNetClosed
 	PvHandlerTimeout
+	PvFormatter // a value implementing fmt.Formatter (its rendering carries the token)
+	PvPublic    // a value offering Public() string
 	pvMax
 )
 
 // PanicKindNames for reports.
-var PanicKindNames = []string{"string", "error", "runtime:nil-map", "runtime:index", "struct", "http.ErrAbortHandler", "wrapped-error", "int", "slice-typed-error", "map", "func", "error-with-panicking-Error()", "inject.InterfaceOf-panic", "io.EOF", "context.Canceled", "context.DeadlineExceeded", "wrapped-EPIPE", "wrapped-ECONNRESET", "fs.ErrNotExist", "net.ErrClosed", "http.ErrHandlerTimeout"}
+var PanicKindNames = []string{"string", "error", "runtime:nil-map", "runtime:index", "struct", "http.ErrAbortHandler", "wrapped-error", "int", "slice-typed-error", "map", "func", "error-with-panicking-Error()", "inject.InterfaceOf-panic", "io.EOF", "context.Canceled", "context.DeadlineExceeded", "wrapped-EPIPE", "wrapped-ECONNRESET", "fs.ErrNotExist", "net.ErrClosed", "http.ErrHandlerTimeout", "fmt.Formatter", "has-Public()"}
+
+type fmtValue struct{ tok string }
+
+func (v fmtValue) Format(f fmt.State, c rune) { _, _ = f.Write([]byte("formatted:" + v.tok)) }
+
+type publicValue struct{ tok string }
+
+func (v publicValue) Public() string { return "public:" + v.tok }
+func (v publicValue) Error() string  { return "internal:" + v.tok }
 
 type errList []string
 
@@ -135,6 +147,10 @@ func raise(kind int, tok string, c flamego.Context) {
 		panic(net.ErrClosed)
 	case PvHandlerTimeout:
 		panic(http.ErrHandlerTimeout)
+	case PvFormatter:
+		panic(fmtValue{tok})
+	case PvPublic:
+		panic(publicValue{tok})
 	case PvString:
 		panic(tok)
 	case PvError:
@@ -336,6 +352,10 @@ func (h *SimH) do(q *Req, c flamego.Context, rw http.ResponseWriter, r *http.Req
 		if rw != nil {
 			attempt()
 			http.Error(rw, "denied "+q.Name, http.StatusForbidden)
+		}
+	case OpSetCT:
+		if rw != nil {
+			rw.Header().Set("Content-Type", "application/json")
 		}
 	case OpSetCL:
 		if rw != nil {
